@@ -168,6 +168,16 @@ theorem frank_h_integrates_to_cdf {θ u : ℝ} (hθ : θ ≠ 0) (hu : 0 ≤ u) (
     ∫ t in a..b, Gen.Frank.hRow θ u t = Gen.Frank.cdfRow θ u b - Gen.Frank.cdfRow θ u a := by
   simp only [Frank.bridge_hRow, Frank.bridge_cdfRow]; exact Frank.integral_h_sub hθ hu hu1 a b
 
+/-! ## log_probability_density -/
+
+/-- `log_probability_density` is literally the element-wise logarithm of `probability_density`
+(base-class method), and no family overrides it or the `pdf/cdf/ppf` aliases. -/
+theorem log_pdf_is_log (ps : List ℝ) :
+    Gen.Base.logPdf ps = ps.map Real.log ∧ Gen.Base.aliasOverrides = [] := by
+  constructor
+  · simp [Gen.Base.logPdf]
+  · rfl
+
 example : (0:ℝ) < 2 ∧ (1:ℝ) < 2 ∧ (0:ℝ) < 1/2 ∧ (1/2:ℝ) < 1 := by norm_num
 
 end CopVerif.Props.C07
